@@ -1,12 +1,13 @@
 #!/bin/bash
-# seedtest.sh <pid> <n> [check-ids...] : confirm a seeded change and run the checks against it
+# seedtest.sh <pid> <n> [check-ids...] : confirm a seeded change (demo fails with it / passes without, tests unchanged)
+# and run the checks against it in a PRIVATE copy of /verif and /repo (never touches /repo itself)
 pid=$1; n=$2; shift 2; checks=${@:-$pid}
 wt=/tmp/seed-$pid-$n
 dst=/verif/seeded/$pid-$n
+run=/var/tmp/seedrun-$pid-$n
 mkdir -p $dst
-cp $wt/SEED/patch.diff $wt/SEED/demo.py $wt/SEED/meta.json $dst/ 2>/dev/null
+cp $wt/SEED/demo.py $wt/SEED/meta.json $dst/ 2>/dev/null
 cd $wt
-# regenerate the patch from the worktree (authoritative)
 git diff -- musiclang > $dst/patch.diff
 git stash -q
 PYTHONPATH=$wt /venv/bin/python SEED/demo.py >/dev/null 2>&1; d0=$?
@@ -14,17 +15,22 @@ git stash pop -q
 PYTHONPATH=$wt /venv/bin/python SEED/demo.py >/dev/null 2>&1; d1=$?
 t=$(PYTHONPATH=$wt /venv/bin/python -m pytest -q -p no:cacheprovider --timeout=900 tests 2>&1 | tail -1)
 echo "demo clean=$d0 mutated=$d1 ; tests: $t"
-cd /verif
-git -C /repo apply $dst/patch.diff || { echo "patch does not apply"; exit 1; }
+rm -rf $run; mkdir -p $run/verif
+(cd /verif && tar cf - --exclude=.git --exclude=evidence/replay --exclude=seeded .) | (cd $run/verif && tar xf -)
+git -C /repo worktree add -q $run/repo HEAD
+git -C $run/repo apply $dst/patch.diff || { echo "patch does not apply"; git -C /repo worktree remove --force $run/repo; exit 1; }
 res=""
+cd $run/verif
 for c in $checks; do
-  out=$(./check $c 2>/dev/null | grep -c "^VIOLATION")
-  rc=$?
-  line=$(./check $c --no-build 2>/dev/null | grep "^VIOLATION" | head -1)
-  res="$res $c:violations=$out"
-  echo "  check $c -> $out violation line(s)  $line"
+  out=$(VERIF_REPO=$run/repo ./check $c 2>/dev/null)
+  nv=$(echo "$out" | grep -c "^VIOLATION")
+  line=$(echo "$out" | grep "^VIOLATION" | head -1)
+  nf=$(echo "$line" | grep -c "no-failing-input-found")
+  res="$res $c:violation_lines=$nv,failing_input=$((1-nf))"
+  echo "  check $c -> $nv violation line(s)  $line"
 done
-git -C /repo checkout -- .
+git -C /repo worktree remove --force $run/repo
+rm -rf $run
 python3 - "$dst" "$d0" "$d1" "$t" "$res" <<'PY'
 import json,sys
 dst,d0,d1,t,res=sys.argv[1:6]
